@@ -118,7 +118,7 @@ def sweep(tier, seed):
         n += 1
         sub = tempfile.mkdtemp(prefix='pair_', dir=root)
         dirs = {}
-        for name in ('a', 'a b', 'ab', 'a.b', 'A'):
+        for name in ('a', 'a b', 'ab', 'a.b', 'A', 'a ', ' a', 'a\t', 'a\n', 'job', 'job ', 'Job'):
             from valjean.cosette.run import RunTask
             from valjean.cosette.env import Env
             up, st = RunTask.from_clis(name, [_cmd(0, 0)]).do(env=Env(), config=_cfg(sub))
@@ -131,7 +131,7 @@ def sweep(tier, seed):
     return {'name': 'run-task-native', 'evaluations': n, 'distinct': n, 'failures': fails[:8], 'exhaustive': True,
             'bound': f'real RunTask with real child processes: all lists of <= {2 if tier == "quick" else 3} commands with exit status 0 / 1 / missing executable '
                      '(+ selected 3-command lists in the quick tier), both streams; 14 task names incl. empty, ".", "..", with slash / NUL / newline / space; '
-                     '5 similar names for directory ownership', 'samples': [{'name': 'task7', 'exit_statuses': [0, 1, 0]}]}
+                     '12 look-alike names (case, inner / surrounding whitespace) for directory ownership', 'samples': [{'name': 'task7', 'exit_statuses': [0, 1, 0]}]}
 
 
 def replay(inp):
